@@ -51,11 +51,16 @@ def render_vmx(devs, rng, style):
         if d["file"]:
             if d["dup"]:
                 lines.append(f'{key("fileName")} = "stale-{fname}"')
+                if style.get("aba"):
+                    # the same key three times in casings A, B, A: the last assignment wins
+                    k0 = f"{dev}.fileName"
+                    lines[-1] = f'{k0} = "stale-{fname}"'
+                    lines.append(f'{k0.upper()} = "staler-{fname}"')
             names[(s["cls"], s["bus"], s["unit"])] = fname
         if d["type"] != "none":
             lines.append(f'{key("deviceType")} = "{_case(d["type"], rng, style["typecase"])}"')
         if d["file"]:
-            lines.append(f'{key("fileName")} = "{fname}"')
+            lines.append(f'{(dev + ".fileName") if (style.get("aba") and d["dup"]) else key("fileName")} = "{fname}"')
     if style["shuffle"]:
         # keep the relative order of duplicate assignments (last one wins), shuffle everything else
         idx = list(range(len(lines)))
@@ -169,6 +174,7 @@ VMX_STYLES = [
     {"case": "mixed", "typecase": "asis", "shuffle": False, "comments": True, "spacing": False, "quotes": "all", "crlf": False},
     {"case": "asis", "typecase": "asis", "shuffle": True, "comments": True, "spacing": True, "quotes": "all", "crlf": False, "names": True},
     {"case": "lower", "typecase": "lower", "shuffle": False, "comments": False, "spacing": False, "quotes": "all", "crlf": True, "names": True},
+    {"case": "asis", "typecase": "asis", "shuffle": True, "comments": False, "spacing": False, "quotes": "all", "crlf": False, "aba": True},
 ]
 OVF_STYLES = [{"ids": "plain"}, {"ids": "alphabet", "po": "o", "pr": "r"}, {"ids": "alphabet", "po": "ovf", "pr": "rasd", "nl": False},
               {"ids": "words"}, {"ids": "words2", "po": "disk", "pr": "file"}]
@@ -196,6 +202,20 @@ def observe(kind, body, rng, style, history=None):
         from dissect.hypervisor.descriptor.pvs import PVS
         text, names = render_pvs(body, rng, style)
         obj = PVS(io.StringIO(text))
+    # another configuration with the same identifiers but other file names is parsed (and listed) in between: objects
+    # must not share state
+    decoy = None
+    try:
+        if kind == "ovf":
+            decoy = OVF(io.StringIO(text.replace('href="', 'href="decoy-')))
+        elif kind == "vbox":
+            decoy = VBox(io.StringIO(text.replace('location="', 'location="decoy-')))
+        elif kind == "pvs":
+            decoy = PVS(io.StringIO(text.replace("<SystemName>", "<SystemName>decoy-")))
+        if decoy is not None and rng.random() < 0.5:
+            list(decoy.disks())
+    except Exception:  # noqa: BLE001
+        pass
     first = list(obj.disks())
     if history is not None:
         it = iter(obj.disks())
